@@ -51,11 +51,25 @@ def _loop(conn, fn, init):
     os._exit(0)
 
 
-class Died:
-    """Marker result: the worker process died while running this key."""
+KEY_CPU_LIMIT_S = float(os.environ.get("VERIF_KEY_CPU_S", "400"))
 
-    def __init__(self, exitcode):
+
+def _cpu_s(pid):
+    try:
+        with open(f"/proc/{pid}/stat") as f:
+            parts = f.read().rsplit(")", 1)[1].split()
+        return (int(parts[11]) + int(parts[12])) / os.sysconf("SC_CLK_TCK")
+    except Exception:
+        return 0.0
+
+
+class Died:
+    """Marker result: the worker process died while running this key (watchdog = it was
+    killed by the parent because the key used more than KEY_CPU_LIMIT_S of CPU time)."""
+
+    def __init__(self, exitcode, watchdog=False):
         self.exitcode = exitcode
+        self.watchdog = watchdog
 
     def describe(self):
         if self.exitcode is not None and self.exitcode < 0:
@@ -73,6 +87,8 @@ def imap_unordered(fn, keys, jobs, init=None, per_key_timeout=None, should_stop=
     n = len(keys)
     nxt = 0
     live = {}  # conn -> [proc, current index or None]
+    cpu0 = {}  # conn -> CPU seconds of the worker when its current key was handed out
+    killed = set()
 
     def spawn():
         a, b = ctx.Pipe()
@@ -88,6 +104,7 @@ def imap_unordered(fn, keys, jobs, init=None, per_key_timeout=None, should_stop=
             n = nxt  # nothing further is dispatched
         if nxt < n:
             live[c][1] = nxt
+            cpu0[c] = _cpu_s(live[c][0].pid)
             c.send((nxt, keys[nxt]))
             nxt += 1
             return True
@@ -100,7 +117,13 @@ def imap_unordered(fn, keys, jobs, init=None, per_key_timeout=None, should_stop=
     while done < n:
         conns = [c for c, (p, i) in live.items() if i is not None]
         sent = {p.sentinel: c for c, (p, i) in live.items() if i is not None}
-        ready = wait(conns + list(sent), timeout=per_key_timeout)
+        ready = wait(conns + list(sent), timeout=15)
+        # watchdog: a key that has burnt KEY_CPU_LIMIT_S of CPU is not going to finish
+        for c in conns:
+            p, i = live[c]
+            if _cpu_s(p.pid) - cpu0.get(c, 0.0) > KEY_CPU_LIMIT_S:
+                killed.add(c)
+                p.kill()
         handled = set()
         for r in ready:
             c = r if r in live else sent.get(r)
@@ -138,7 +161,7 @@ def imap_unordered(fn, keys, jobs, init=None, per_key_timeout=None, should_stop=
                 p.join()
             del live[c]
             done += 1
-            yield (i, Died(p.exitcode))
+            yield (i, Died(p.exitcode, watchdog=c in killed))
             if nxt < n:
                 feed(spawn())
     for c, (p, i) in list(live.items()):
